@@ -525,6 +525,9 @@ def gen_scale(rng):
         out.append(sweep(mbi([t_fb(rng, typ=0, colors=n)])))
         out.append(sweep(mbi([t_cmdline(rng, rstr(rng, n)), t_loader(rng, rstr(rng, n + 1)), t_module(rng, rstr(rng, n))])))
         out.append(sweep(mbi([t_smbios(rng, n), t_network(rng, n)])))
+    # palette byte length 3*n crosses 2^16 at n = 21846 (and 2^17 at 43691)
+    for n in (21845, 21846, 43690, 43691, 65535):
+        out.append(sweep(mbi([t_fb(rng, typ=0, colors=n)])))
     for n in (10, 11, 100, 300):
         out.append(sweep(mbi([t_mmap(rng, n)])))
         out.append(sweep(mbi([t_efi_mmap(rng, ds=rng.choice([40, 48, 4096 if n <= 11 else 56]), n=n)])))
@@ -544,4 +547,17 @@ def gen_headers_scale(rng):
     for n in (63, 64, 255, 256, 257, 1000):
         out.append(hsweep(header([htag(1, rng.randrange(2), rbytes(rng, 4 * n), rng=rng)])))
     out.append(hsweep(header([rand_htag(rng, rng.choice([2, 3, 4, 5, 6, 7, 8, 9, 10])) for _ in range(400)])))
+    return out
+
+
+def gen_inforeq_sizes(rng):
+    """header information-request tags with EVERY declared size 0..40 (all remainders), alone and in front of other tags"""
+    out = []
+    for size in range(0, 41):
+        body = rbytes(rng, 32)
+        t = u16(1) + u16(rng.randrange(2)) + u32(size) + body
+        t = t[:max(8, (size + 7) // 8 * 8)]
+        out.append(hsweep(header([t], arch=rng.choice([0, 4]))))
+        out.append(hsweep(header([t, rand_htag(rng, rng.choice([2, 3, 5, 6]))])))
+        out.append(hsweep(header([rand_htag(rng, 6), t])))
     return out
